@@ -74,6 +74,8 @@ var ioTokenSpecs = map[string]TokSpec{
 	"inv1m":      {Kind: "inv", Alg: "ed25519", Opts: map[string]string{"nonce": "12", "iat": "none", "size:arg-str": "1100000"}},
 	"dlg2":       {Kind: "dlg", Alg: "p256", Opts: map[string]string{"nonce": "12", "sub": "other", "meta": "k=str-invtag"}},
 	"dlgsamesec": {Kind: "dlg", Alg: "ed25519", Key: 2, Opts: map[string]string{"nonce": "12", "nbf": "subsec", "exp": "subsec-up"}}, // not-before and expiration inside one wall-clock second
+	"dlgslash":   {Kind: "dlg", Alg: "ed25519", Key: 1, Opts: map[string]string{"nonce": "12", "meta": "k=map-slash"}},         // metadata {"/": "not-a-cid"}: a map, sealed as a map
+	"invslash":   {Kind: "inv", Alg: "ed25519", Opts: map[string]string{"nonce": "12", "iat": "none", "args": "k=map-slash-bytes"}}, // arguments holding {"/": {"bytes": ...}} and {"/": "<cid text>"} maps
 	"dlgrsa8k":   {Kind: "dlg", Alg: "ed25519", Opts: map[string]string{"nonce": "12", "aud": "rsa8192"}},
 	"inv2":       {Kind: "inv", Alg: "secp256k1", Opts: map[string]string{"nonce": "12", "iat": "none", "prf": "odd", "args": "k=str-dlgtag"}},
 }
@@ -924,7 +926,7 @@ type c18WriteCase struct {
 	Call      int    `json:"call"` // 0 = fault-free comparison; -1 = every call; k = fail at call k
 	Short     bool   `json:"short,omitempty"`
 	Transient bool   `json:"transient,omitempty"` // only that call fails, later writes succeed again
-	Mode      int    `json:"mode,omitempty"`      // 0 sticky, 1 sticky short, 2 transient, 3/4 transient (short / nothing taken) with EINTR, 5/6 with EAGAIN
+	Mode      int    `json:"mode,omitempty"`      // 0 sticky, 1 sticky short, 2 transient, 3/4 transient (short / nothing taken) with EINTR, 5/6 with EAGAIN, 7/8 the error comes with the full count (sticky / one-off)
 }
 
 func c18WriteSub() *engine.Sub {
@@ -1041,10 +1043,12 @@ func c18WriteSub() *engine.Sub {
 				lo, hi = cs.Call, cs.Call
 			}
 			for i := lo; i <= hi; i++ {
-				for mode := 0; mode < 7; mode++ {
+				for mode := 0; mode < 9; mode++ {
 					// modes 3..6: the failing call takes half of the data (or nothing) and fails with EINTR / EAGAIN - an
 					// error that invites a retry; later calls succeed. A call that failed has failed: an error, never a CID.
-					short, transient := mode == 1 || mode == 3 || mode == 5, mode >= 2
+					// modes 7, 8: the failing call reports the error together with the FULL count (len(p), err) - sticky and one-off
+					short, transient := mode == 1 || mode == 3 || mode == 5, mode >= 2 && mode != 7
+					full := mode >= 7
 					var werr error
 					switch mode {
 					case 3, 4:
@@ -1055,7 +1059,7 @@ func c18WriteSub() *engine.Sub {
 					if cs.Call > 0 && mode != cs.Mode && (cs.Mode != 0 || short != cs.Short || transient != cs.Transient) {
 						continue
 					}
-					w := &engine.PosWriter{FailCall: i, Short: short, Transient: transient, Err: werr}
+					w := &engine.PosWriter{FailCall: i, Short: short, Transient: transient, Err: werr, Full: full}
 					_, err := api.Stream(w)
 					ctx.Eval(1)
 					ctx.Trans(1)
@@ -1079,6 +1083,9 @@ func c18WriteSub() *engine.Sub {
 					if werr != nil {
 						pos += "-" + werr.Error()[:4]
 					}
+					if full {
+						pos += "-error-with-full-count"
+					}
 					ctx.Failf(&c18WriteCase{API: cs.API, Call: i, Short: short, Transient: transient, Mode: mode}, "write-fault-swallowed/"+strings.ReplaceAll(pos, " ", "-")+"/"+strings.Split(api.Name, "[")[0],
 						"%s reports success although write call %d of %d failed (short=%v, later writes succeed=%v): output was not completely written", api.Name, i, clean.Calls, short, transient)
 				}
@@ -1093,7 +1100,7 @@ func C18() *engine.Check {
 		Level:    "model_checking",
 		Subs:     []*engine.Sub{c18ReadSub(), c18WriteSub(), c18ConcSub(), concRaceSub("C18")},
 		Assumptions: []string{
-			"the harness reader never answers (0, nil); injected read faults are sticky (every later call fails too); write faults are injected sticky, short and transient",
+			"the harness reader never answers (0, nil); injected read faults are sticky (every later call fails too); write faults are injected sticky, short, transient, and as (len(p), err)",
 			"multi-token containers are compared as sets because the container writer iterates a Go map",
 			"Ed25519 (deterministic) tokens are used so that streamed and buffered bytes are comparable",
 		},
